@@ -86,6 +86,22 @@ def _case(draw, shard):
                 rr["ref_counts"] = r["ref_counts"] + r["alt_counts"] - rr["alt_counts"]
                 rows.append(rr)
                 clusters[rr["mutation_id"]] = "abcdefghijklmnop".index(m_id[-1])
+    cluster_rows = None
+    if shard % 6 == 5:
+        # pre-clustered input in PyClone-VI's layout with string cluster ids and --assign-loss-prob: the loader picks a
+        # truncal cluster (two clusters tie for the top prevalence in every sample here) and runs a permutation test with
+        # the seeded generator; which clusters get the high loss prior depends on that pick
+        base_rows, rows, cluster_rows = list(rows), [], []
+        sizes = dict(a=5, b=4, c=4)
+        for r in base_rows:
+            letter = r["mutation_id"][-1]
+            for j in range(sizes.get(letter, 1)):
+                rr = dict(r, mutation_id="%s_%d" % (r["mutation_id"], j), alt_counts=min(r["ref_counts"] + r["alt_counts"], r["alt_counts"] + (j % 2)))
+                rr["ref_counts"] = r["ref_counts"] + r["alt_counts"] - rr["alt_counts"]
+                rows.append(rr)
+                prev = 0.95 if letter in "ab" else [0.5, 0.3, 0.1, 0.2][("abcdefghijklmnop".index(letter) + int(r["sample_id"][1:])) % 4]
+                chrom = "chr1" if letter == "b" else "chr%d" % (1 + (j + "abcdefghijklmnop".index(letter)) % 5)
+                cluster_rows.append([rr["mutation_id"], r["sample_id"], "cl_" + letter, prev, chrom])
     variants = []
     for v in range(3):
         rev = draw(st.sampled_from([True, False])) or v == shard % 3
@@ -110,6 +126,12 @@ def _case(draw, shard):
         variants=variants,
         clusters=clusters,
     )
+    if shard % 6 == 2:
+        # sub-tree updates on branching data for many sweeps: the re-sampled sub-tree is often a forest of several clones
+        # that is grafted back as a whole (the only place where several edges are attached in one edit)
+        case.update(subtree_prob=0.5, iters=draw(st.integers(150, 250)), N=draw(st.integers(4, 8)))
+    if cluster_rows is not None:
+        case.update(cluster_rows=cluster_rows, assign_loss=True, outlier_prob=0.001)
     if many:
         nprg = draw(st.sampled_from([3, 1, 2]))
         case.update(
@@ -130,7 +152,7 @@ def budget(ctx):
 def _launch(case, td, name, hashseed, aff, delays):
     out = os.path.join(td, name + ".pkl.gz")
     kw = dict(
-        in_file=os.path.join(td, "in.tsv"), out_file=out, cluster_file=(os.path.join(td, "clusters.tsv") if case.get("clusters") else None), burnin=1, num_iters=case["iters"], num_particles=case["N"], grid_size=case.get("grid_size", 11), num_samples_prune_regraph=case.get("nprg", 1), num_samples_data_point=case.get("ndp", 1), seed=case["seed"], num_chains=case["chains"],
+        in_file=os.path.join(td, "in.tsv"), out_file=out, cluster_file=(os.path.join(td, "clusters.tsv") if case.get("clusters") or case.get("cluster_rows") else None), assign_loss_prob=bool(case.get("assign_loss")), burnin=1, num_iters=case["iters"], num_particles=case["N"], grid_size=case.get("grid_size", 11), num_samples_prune_regraph=case.get("nprg", 1), num_samples_data_point=case.get("ndp", 1), seed=case["seed"], num_chains=case["chains"],
         proposal=case["proposal"], outlier_prob=case["outlier_prob"], subtree_update_prob=case["subtree_prob"], concentration_update=case["conc_update"], print_freq=1000, density="binomial",
     )
     env = dict(os.environ)
@@ -170,6 +192,11 @@ def evaluate(case):
         po.write_table(case["rows"], os.path.join(td, "in.tsv"))
         if case.get("clusters"):
             po.write_clusters(case["clusters"], os.path.join(td, "clusters.tsv"))
+        if case.get("cluster_rows"):
+            with open(os.path.join(td, "clusters.tsv"), "w") as f:
+                f.write("mutation_id\tsample_id\tcluster_id\tcellular_prevalence\tchrom\n")
+                for r in case["cluster_rows"]:
+                    f.write("%s\t%s\t%s\t%s\t%s\n" % tuple(r))
         runs = [("ref", "0", None, {})] + [("v%d" % i, v["hashseed"], v["aff"], v["delays"]) for i, v in enumerate(case["variants"])]
         procs = [(_launch(case, td, *r), r) for r in runs]
         outs = {}
@@ -204,6 +231,8 @@ def evaluate(case):
             classes.append("outliers-on")
         if any(len(e[2]) >= 10 for seq in ref.values() for e in seq):
             classes.append("trace-entry-with>=10-clones")
+        if case.get("assign_loss"):
+            classes.append("assign-loss-prob-with-tied-truncal-candidates")
         if case.get("nprg", 1) > 1:
             classes.append("several-prune-regraph-moves-per-sweep")
         nontrivial = False
@@ -230,4 +259,4 @@ def evaluate(case):
                 nontrivial = nontrivial or case["chains"] >= 2
             if aff is not None:
                 classes.append("single-core-affinity")
-        return Outcome(nontrivial=nontrivial, classes=tuple(sorted(set(classes))), info=dict(config={k: v for k, v in case.items() if k not in ("rows",)}, completion_orders=orders), weight=len(runs))
+        return Outcome(nontrivial=nontrivial, classes=tuple(sorted(set(classes))), info=dict(config={k: v for k, v in case.items() if k not in ("rows", "cluster_rows")}, completion_orders=orders), weight=len(runs))
